@@ -247,14 +247,26 @@ func keyClass(k string) string {
 		}
 	}
 	var sb strings.Builder
-	for _, c := range b {
-		if c < 0x20 || c > 0x7e {
-			fmt.Fprintf(&sb, "\\x%02x", c)
+	for i := 0; i < len(b); {
+		j := i
+		if b[i] >= 0x20 && b[i] <= 0x7e {
+			for j < len(b) && b[j] >= 0x20 && b[j] <= 0x7e {
+				j++
+			}
+			sb.WriteString(digits.ReplaceAllString(string(b[i:j]), "N"))
 		} else {
-			sb.WriteByte(c)
+			for j < len(b) && (b[j] < 0x20 || b[j] > 0x7e) {
+				j++
+			}
+			if j-i == 1 {
+				fmt.Fprintf(&sb, "\\x%02x", b[i])
+			} else {
+				fmt.Fprintf(&sb, "<bin:%d>", j-i)
+			}
 		}
+		i = j
 	}
-	return digits.ReplaceAllString(sb.String(), "N") + seq
+	return sb.String() + seq
 }
 
 // aliasIDs lists the identifiers that carry an alias mapping in an IBC store dump, i.e.
